@@ -220,7 +220,7 @@ func init() {
 
 	inbox := func(prop int, tier string, witnesses ...string) HarnessSpec {
 		return HarnessSpec{Name: "inbox-unit", Pkg: "actor", Func: "ZZ_Inbox", Preempt: 2,
-			Params: pm("prop", prop, "T", tierSel(tier, 2, 3), "M", 2, "S", 2), Witnesses: append([]string{"start-races-with-senders"}, witnesses...), Deadline: 40 * time.Minute, TrustRace: prop == 2}
+			Params: pm("prop", prop, "T", tierSel(tier, 2, 3), "M", 2, "S", 2), Witnesses: append([]string{"start-races-with-senders"}, witnesses...), Deadline: 40 * time.Minute, TrustRace: prop == 2 || prop == 1}
 	}
 	l2 := func(prop int, t, m, crash int, witnesses ...string) HarnessSpec {
 		return HarnessSpec{Name: fmt.Sprintf("process-threads(prop %d)", prop), Pkg: "actor", Func: "ZZ_L2", Preempt: 2,
@@ -234,7 +234,9 @@ func init() {
 	reg(&PropSpec{
 		ID: "C01",
 		Harnesses: func(tier string) []HarnessSpec {
-			return []HarnessSpec{inbox(1, tier, "several-batches"), l2(4, tierSel(tier, 2, 2), tierSel(tier, 2, 3), 0, "partially-accepted"), backlog}
+			return []HarnessSpec{inbox(1, tier, "several-batches"), l2(4, tierSel(tier, 2, 2), tierSel(tier, 2, 3), 0, "partially-accepted"), backlog,
+				// order and exactly-once of the messages that do not crash, around a crash and restart (shared with C05)
+				{Name: "order-around-a-restart", Pkg: "actor", Func: "ZZ_L2", Preempt: 2, Params: pm("prop", 5, "T", 2, "M", 2, "crash", 1), Witnesses: []string{"restart"}, Deadline: 40 * time.Minute}}
 		},
 		Bounds: func(tier string) string {
 			return fmt.Sprintf("inbox unit: %d sender goroutines x 2 messages with symbolic payloads, initial ring size 1..2 (growth and wrap occur), Start before or racing with the senders, preemption bound 2; process unit: spawner + 2 senders on a real process/Inbox of size 1", tierSel(tier, 2, 3))
